@@ -76,6 +76,7 @@ func cmdRun(args []string) int {
 	solver2 := fs.String("fallback", "cvc5", "fallback solver on unknown (empty = none)")
 	trace := fs.Bool("trace", false, "trace instructions")
 	poll := fs.Int("poll-unwind", 0, "idle polling bound")
+	ucut := fs.Bool("unwind-cut", false, "paths that exceed the unwinding bound are cut and counted instead of failing (environment-driven loops)")
 	cclock := fs.Bool("concrete-clock", false, "time.Now returns distinct concrete instants")
 	stopFirst := fs.Bool("stop-at-first", false, "stop at first violation")
 	slog := fs.String("solver-log", "", "log solver input to file")
@@ -108,7 +109,7 @@ func cmdRun(args []string) int {
 		return 2
 	}
 	cfg := sym.Config{Unwind: *unwind, MaxSteps: *maxSteps, MaxPaths: *maxPaths, MaxDelays: *delays, Jobs: *jobs,
-		ExecPrefixes: []string{"github.com/ErdemOzgen/blackdagger"}, TraceInstr: *trace, PollUnwind: *poll, StopAtFirst: *stopFirst, ConcreteClock: *cclock}
+		ExecPrefixes: []string{"github.com/ErdemOzgen/blackdagger"}, TraceInstr: *trace, PollUnwind: *poll, StopAtFirst: *stopFirst, ConcreteClock: *cclock, UnwindCut: *ucut}
 	if *deadline > 0 {
 		cfg.Deadline = time.Now().Add(*deadline)
 	}
